@@ -1,5 +1,6 @@
 from dataclasses import dataclass
 from pathlib import Path
+import re
 from typing import TYPE_CHECKING
 
 
@@ -286,6 +287,39 @@ def __create_macro_factory(
             return _reapply_defered_macro(return_list, reapplier)
 
     return macro_factory, len(parameter_tokens)
+
+
+def __check_namespace(
+    directive: str,
+    namespace: str,
+    config: "Configuration",
+    file_name: str,
+    line: int,
+    line_str: str,
+) -> None:
+    """
+    The argument of '#override' / '#link' becomes the folder `data/<namespace>` that a build deletes and writes into:
+    it has to be the name of another datapack's namespace, not a path ('..', '', 'a/b', an absolute path)
+
+    :raises HeaderSyntaxException: Not a namespace, or the namespace of this datapack
+    """
+    if re.fullmatch(r"[a-z0-9_.-]+", namespace) is None or namespace in {".", ".."}:
+        raise HeaderSyntaxException(
+            f"Invalid namespace '{namespace}' after '#{directive}'",
+            file_name,
+            line,
+            line_str,
+            suggestion="A namespace may only contain lowercase letters, digits, '_', '-' and '.'",
+        )
+    if namespace == config.namespace:
+        # `foo` and `<namespace>.foo` would be two names of one file
+        raise HeaderSyntaxException(
+            f"Namespace '{namespace}' is the namespace of this datapack, it cannot be {'linked' if directive == 'link' else 'overridden'}.",
+            file_name,
+            line,
+            line_str,
+            suggestion=f"Names of this datapack are written without the '{namespace}.' prefix",
+        )
 
 
 def __parse_header(
@@ -664,15 +698,9 @@ def __parse_header(
                     line,
                     line_str,
                 )
-            if arg_tokens[0].string == config.namespace:
-                # `foo` and `<namespace>.foo` would be two names of one file
-                raise HeaderSyntaxException(
-                    f"Namespace '{arg_tokens[0].string}' is the namespace of this datapack, it cannot be overridden.",
-                    file_name,
-                    line,
-                    line_str,
-                    suggestion=f"Names of this datapack are written without the '{arg_tokens[0].string}.' prefix",
-                )
+            __check_namespace(
+                "override", arg_tokens[0].string, config, file_name, line, line_str
+            )
             header.namespace_overrides.add(arg_tokens[0].string)
 
         # #override
@@ -691,6 +719,9 @@ def __parse_header(
                     line,
                     line_str,
                 )
+            __check_namespace(
+                "link", arg_tokens[0].string, config, file_name, line, line_str
+            )
             header.namespace_overrides.add(arg_tokens[0].string)
             header.datapack_link.add(arg_tokens[0].string)
 
